@@ -886,9 +886,16 @@ def from_empty(base: str, workdir: str, cfg: str, hdr: int, seed: int, feats: se
             for v in EMPTIED:
                 w0[v] = []
             assign(b0, w0)
+            # the file to start from: an empty static-prop lump under header number `hdr` (named through a format of that number;
+            # the header field is also set directly, for a writer that leaves it alone)
+            b0.static_prop_version = next(v for v in B.StaticPropVersion if v.version == hdr and v.name in PROP_VERSIONS)
             b0.game_lumps[b'sprp'].version = hdr
             b0.save(path)
             b1 = B.BSP(path, exp_ver)
+            if b1.game_lumps[b'sprp'].version != hdr:
+                res['!save'] = (f'file with empty tables: saved with static_prop_version = {b0.static_prop_version.name}, the static-prop lump has '
+                                f'header number {b1.game_lumps[b"sprp"].version}, not {hdr}')
+                return res, None, '?'
             if named is not None:
                 b1.static_prop_version = B.StaticPropVersion[named]
             for v in VIEWS if read_first else []:
